@@ -68,7 +68,21 @@ def run_live(ctx, binary, data, n):
                 live_len=len(while_open), **{"in": [], "out": [], "file": []})
 
 
-def run_logger(ctx, binary, data, seed, chunk, pause_ms, n, paced=False, pre=b"", stall_out=0.0, rec_broken=False):
+HANGS = [0]
+
+
+def run_logger(ctx, binary, data, seed, chunk, pause_ms, n, **kw):
+    """One run; once three runs have failed to end after end of input the remaining runs are skipped (each would wait two
+    minutes to say the same thing)."""
+    if HANGS[0] >= 3:
+        return dict(midnight=True)          # dropped
+    ev = run_logger1(ctx, binary, data, seed, chunk, pause_ms, n, **kw)
+    if ev.get("ret") == "timeout":
+        HANGS[0] += 1
+    return ev
+
+
+def run_logger1(ctx, binary, data, seed, chunk, pause_ms, n, paced=False, pre=b"", stall_out=0.0, rec_broken=False):
     d = ctx.path("run%d" % n)
     os.makedirs(d)
     logdir = os.path.join(d, "rec")
